@@ -275,8 +275,14 @@ Qed.
 (* ================================================================ node semantics with the structural operators *)
 Local Open Scope string_scope.
 (* static shapes: the target shape / axes / permutation (an initializer input in ONNX) is the node's payload *)
+Definition tfull {A} (s : list nat) (c : A) : tensor A := mkT s (fun _ => c).
+Definition enc_full (s : list nat) (c : sval) : list nat := length s :: s ++ enc_const c.
 Definition ssem (op : string) (ats : list nat) (vals : list cten) : option (list cten) :=
-  if String.eqb op "Reshape" then
+  if String.eqb op "ConstantFull" then                      (* an initializer holding one value at every index *)
+    match ats, vals with
+    | n :: rest, [] => match dec_const (skipn n rest) with Some c => Some [tcanon (tfull (firstn n rest) c)] | None => None end
+    | _, _ => None end
+  else if String.eqb op "Reshape" then
     match vals with [a] => if Nat.eqb (prod ats) (prod (c_shape a)) then Some [tcanon (reshape ats (decanon a))] else None | _ => None end
   else if String.eqb op "Expand" then
     match vals with [a] => if bsubb (c_shape a) ats then Some [tcanon (texpand ats (decanon a))] else None | _ => None end
@@ -444,7 +450,7 @@ Lemma emit_res_fresh e args next nodes res next' :
 Proof.
   intros Hr Hem. destruct e as [i|c|o a|o a b|o a b c]; try contradiction; simpl in Hem.
   - now injection Hem as <- <- <-.
-  - destruct (emit a args next) as [[na ra] n1] eqn:Ea. injection Hem as <- <- <-. apply (emit_defs a _ _ _ _ _ Ea).
+  - destruct (emit a args next) as [[na ra] n1] eqn:Ea. injection Hem as <- <- <-. exact (proj1 (emit_defs a _ _ _ _ _ Ea)).
   - destruct (emit a args next) as [[na ra] n1] eqn:Ea. destruct (emit b args n1) as [[nb rb] n2] eqn:Eb. injection Hem as <- <- <-.
     pose proof (proj1 (emit_defs a _ _ _ _ _ Ea)). pose proof (proj1 (emit_defs b _ _ _ _ _ Eb)). lia.
   - destruct (emit a args next) as [[na ra] n1] eqn:Ea. destruct (emit b args n1) as [[nb rb] n2] eqn:Eb.
@@ -481,3 +487,170 @@ Proof.
   split; [exact Hkeep2|]. split; [exact Hfr2|]. split; [now rewrite <- HTeq|].
   apply (proj2 (emit_defs (k_expr k) args next nodes res next' Em)).
 Qed.
+
+(* ---- broadcast_in_dim of a literal: the converter folds it into an initializer holding the value at every index *)
+Definition gk_full (s : list nat) (c : sval) : gkern :=
+  gk_node 0 "ConstantFull"%string (enc_full s c) (fun _ => Some (tcanon (tfull s c))).
+Lemma firstn_length_app {A} (l m : list A) : firstn (length l) (l ++ m) = l.
+Proof. induction l; simpl; [reflexivity | now rewrite IHl]. Qed.
+Lemma skipn_length_app {A} (l m : list A) : skipn (length l) (l ++ m) = m.
+Proof. induction l; simpl; [reflexivity | exact IHl]. Qed.
+Lemma gk_full_ok s c : sgkern_ok (gk_full s c).
+Proof.
+  apply gk_node_ok. intros [|? ?] out Hl H; [|discriminate]. injection H as <-. unfold ssem, enc_full. simpl.
+  rewrite skipn_length_app, firstn_length_app, dec_enc_const. reflexivity.
+Qed.
+(* it IS the JAX value: broadcasting a scalar to s *)
+Lemma full_is_broadcast s (c : sval) : teq (tfull s c) (jax_broadcast_in_dim s [] (tscalar c)).
+Proof. split; reflexivity. Qed.
+
+(* ================================================================ the table of a traced program *)
+(* what one equation of a real jaxpr is: primitive + static parameters (+ the operand's aval where the plugin reads it) *)
+Inductive gspec :=
+| GElem (name : string)                                  (* an elementwise exact kernel of LiftProg.exact_table *)
+| GConst (c : sval)                                      (* a literal operand *)
+| GFull (s : list nat) (c : sval)                        (* broadcast_in_dim of a literal *)
+| GReshape (new : list nat)
+| GBcast (opshape target bd : list nat)
+| GSqueeze (dims : list nat)
+| GTranspose (perm : list nat).
+Definition gk_of (s : gspec) : option gkern :=
+  match s with
+  | GElem nm => option_map gk_elem (exact_table nm)
+  | GConst c => Some (gk_const c)
+  | GFull sh c => Some (gk_full sh c)
+  | GReshape new => Some (gk_reshape new)
+  | GBcast o t b => Some (gk_bcast o t b)
+  | GSqueeze d => Some (gk_squeeze d)
+  | GTranspose p => Some (gk_transpose p)
+  end.
+Lemma gk_of_ok s k : gk_of s = Some k -> sgkern_ok k.
+Proof.
+  destruct s; simpl; intro H; try (injection H as <-).
+  - destruct (exact_table name) as [k0|] eqn:E; [|discriminate]. injection H as <-. apply gk_elem_ok. now apply (exact_table_ok name).
+  - apply gk_const_ok.
+  - apply gk_full_ok.
+  - apply gk_reshape_ok.
+  - apply gk_bcast_ok.
+  - apply gk_squeeze_ok.
+  - apply gk_transpose_ok.
+Qed.
+Fixpoint slookup (p : string) (l : list (string * gspec)) : option gspec :=
+  match l with [] => None | (q, s) :: r => if String.eqb p q then Some s else slookup p r end.
+Definition stable (l : list (string * gspec)) : gtable :=
+  fun p => match slookup p l with Some s => gk_of s | None => None end.
+Lemma stable_ok l p k : stable l p = Some k -> sgkern_ok k.
+Proof. unfold stable. destruct (slookup p l) as [s|]; [apply gk_of_ok | discriminate]. Qed.
+
+(* the literal value LoweringSem threads through is unused: literals are constant equations *)
+Definition slit : cten := cdummy.
+
+(* every registry built from such a table meets the plugin contract *)
+Theorem struct_registry_meets_plugin_contract l :
+  eqn_contract cten (gpsem (stable l)) ssem (greg (stable l)) slit.
+Proof. exact (greg_contract ssem (stable l) slit (stable_ok l)). Qed.
+
+(* FULL-STRENGTH C01 FOR TRACED INTEGER PROGRAMS: every jaxpr over elementwise exact kernels, literals, reshape,
+   broadcast_in_dim, squeeze, transpose — any length, any wiring, any rank and extent — whenever the dispatcher lowers it
+   and the JAX program is defined on the inputs, the emitted nodes evaluate under the tensor-level ONNX semantics and every
+   bound variable (every program output) carries exactly the JAX value *)
+Theorem struct_program_correct l :
+  forall jp s s', slower_jaxpr (greg (stable l)) s jp = Ok s' ->
+  forall r g r', related cten s r g -> jeval cten (gpsem (stable l)) slit jp r = Some r' ->
+  exists new g', s_nodes s' = s_nodes s ++ new /\ sgeval new g = Some g' /\ genv_le cten g g' /\ related cten s' r' g'.
+Proof. exact (struct_fragment_correct ssem (stable l) slit (stable_ok l)). Qed.
+
+(* ================================================================ tie S for traced programs: graphs as trees *)
+Inductive gtree := GIn (i : nat) | GBad | GNode (op : string) (ats : list nat) (kids : list gtree).
+Fixpoint tlookup (x : vname) (env : list (vname * gtree)) : gtree :=
+  match env with [] => GBad | (y, t) :: r => if Nat.eqb x y then t else tlookup x r end.
+Fixpoint trees (ns : list node) (env : list (vname * gtree)) : list (vname * gtree) :=
+  match ns with
+  | [] => env
+  | n :: r => trees r ((hd 0 (n_outs n), GNode (n_op n) (n_attrs n) (map (fun x => tlookup x env) (n_ins n))) :: env)
+  end.
+(* the tree computing graph value [out]; the graph inputs are the names 0 .. ninputs-1 *)
+Definition tree_of_nodes (ninputs : nat) (ns : list node) (out : vname) : gtree :=
+  tlookup out (trees ns (map (fun i => (i, GIn i)) (seq 0 ninputs))).
+(* the real export, as read off the ONNX file by the harness *)
+Inductive rtree :=
+| RIn (i : nat) | RConst (c : sval) | RFull (s : list nat) (c : sval)
+| ROp1 (o : oop) (a : rtree) | ROp2 (o : oop) (a b : rtree) | ROp3 (o : oop) (a b c : rtree)
+| RReshape (s : list nat) (a : rtree) | RExpand (s : list nat) (a : rtree)
+| RSqueeze (axes : list nat) (a : rtree) | RTranspose (perm : list nat) (a : rtree).
+Fixpoint gtree_of (t : rtree) : gtree :=
+  match t with
+  | RIn i => GIn i
+  | RConst c => GNode "Constant" (enc_const c) []
+  | RFull s c => GNode "ConstantFull" (enc_full s c) []
+  | ROp1 o a => GNode (oname o) (enc_op o) [gtree_of a]
+  | ROp2 o a b => GNode (oname o) (enc_op o) [gtree_of a; gtree_of b]
+  | ROp3 o a b c => GNode (oname o) (enc_op o) [gtree_of a; gtree_of b; gtree_of c]
+  | RReshape s a => GNode "Reshape" s [gtree_of a]
+  | RExpand s a => GNode "Expand" s [gtree_of a]
+  | RSqueeze ax a => GNode "Squeeze" ax [gtree_of a]
+  | RTranspose p a => GNode "Transpose" p [gtree_of a]
+  end%string.
+
+(* ---- non-vacuity: a traced program    (x * 2 + y) with x : int32[2,3], y : int32[3]
+        jaxpr:  c = mul a 2 ; d:[1,3] = broadcast_in_dim[(1,)] b ; e = add c d *)
+Local Open Scope string_scope.
+Definition sx_tab : list (string * gspec) :=
+  [("lit2", GConst (VZ 2%Z)); ("mul:int32", GElem "mul:int32"); ("bcast", GBcast [3] [1; 3] [1]); ("add:int32", GElem "add:int32")].
+Definition sx_prog : jaxpr :=
+  [mkEqn "lit2" [] [Some 2]; mkEqn "mul:int32" [IVar 0; IVar 2] [Some 3]; mkEqn "bcast" [IVar 1] [Some 4];
+   mkEqn "add:int32" [IVar 3; IVar 4] [Some 5]].
+Definition sx_s0 : sctx := mkS [(1, 1); (0, 0)] [0; 1] [].
+Definition sx_cx : cten := mkC [2; 3] (map VZ [1; 5; -7; 2147483647; 0; 4]%Z).
+Definition sx_cy : cten := mkC [3] (map VZ [2; 5; -9]%Z).
+Definition sx_g0 : env cten := fun n => match n with 0 => Some sx_cx | 1 => Some sx_cy | _ => None end.
+Definition sx_r0 : jenv cten := fun v => match v with 0 => Some sx_cx | 1 => Some sx_cy | _ => None end.
+Example sx_prog_tree :
+  match slower_jaxpr (greg (stable sx_tab)) sx_s0 sx_prog with
+  | Ok s' => match bound (erase s') 5 with Some o => Some (tree_of_nodes 2 (s_nodes s') o) | None => None end
+  | Err _ => None
+  end = Some (gtree_of (ROp2 (OAdd I32) (ROp2 (OMul I32) (RIn 0) (RConst (VZ 2%Z))) (RExpand [1; 3] (RReshape [1; 3] (RIn 1))))).
+Proof. vm_compute. reflexivity. Qed.
+Example sx_prog_jax : match jeval cten (gpsem (stable sx_tab)) slit sx_prog sx_r0 with Some r' => r' 5 | None => None end
+  = Some (mkC [2; 3] (map VZ [4; 15; -23; 0; 5; -1]%Z)).
+Proof. vm_compute. reflexivity. Qed.
+Example sx_prog_onnx :
+  match slower_jaxpr (greg (stable sx_tab)) sx_s0 sx_prog with
+  | Ok s' => match sgeval (s_nodes s') sx_g0, bound (erase s') 5 with Some g', Some o => g' o | _, _ => None end
+  | Err _ => None
+  end = Some (mkC [2; 3] (map VZ [4; 15; -23; 0; 5; -1]%Z)).
+Proof. vm_compute. reflexivity. Qed.
+Local Close Scope string_scope.
+
+(* ================================================================ what the harness evaluates for a traced program *)
+Definition sval_eqb (a b : sval) : bool :=
+  match a, b with
+  | VZ x, VZ y => Z.eqb x y
+  | VB x, VB y => Bool.eqb x y
+  | VQ (n, d), VQ (n', d') => Z.eqb n n' && Z.eqb d d'
+  | _, _ => false
+  end.
+Definition cten_eqb (a b : cten) : bool :=
+  nat_list_eqb (c_shape a) (c_shape b) && forallb2 sval_eqb (c_data a) (c_data b).
+Definition sp_s0 (nin : nat) : sctx := mkS (rev (map (fun i => (i, i)) (seq 0 nin))) (seq 0 nin) [].
+Definition sp_env (ins : list cten) : env cten := fun n => nth_error ins n.
+(* the tree of the graph the MODEL emits for the program's output variable *)
+Definition sp_tree (tab : list (string * gspec)) (prog : jaxpr) (nin out : nat) : option gtree :=
+  match slower_jaxpr (greg (stable tab)) (sp_s0 nin) prog with
+  | Ok s' => match bound (erase s') out with Some o => Some (tree_of_nodes nin (s_nodes s') o) | None => None end
+  | Err _ => None
+  end.
+(* the JAX value of the output variable (tensor-level JAX semantics of every equation) *)
+Definition sp_jax (tab : list (string * gspec)) (prog : jaxpr) (ins : list cten) (out : nat) : option cten :=
+  match jeval cten (gpsem (stable tab)) slit prog (sp_env ins) with Some r' => r' out | None => None end.
+(* the value of the emitted graph under the tensor-level ONNX semantics *)
+Definition sp_onnx (tab : list (string * gspec)) (prog : jaxpr) (ins : list cten) (out : nat) : option cten :=
+  match slower_jaxpr (greg (stable tab)) (sp_s0 (length ins)) prog with
+  | Ok s' => match sgeval (s_nodes s') (sp_env ins), bound (erase s') out with Some g', Some o => g' o | _, _ => None end
+  | Err _ => None
+  end.
+Definition opt_cten_is (a : option cten) (b : cten) : bool := match a with Some x => cten_eqb x b | None => false end.
+Example sx_sp : sp_tree sx_tab sx_prog 2 5 = Some (gtree_of (ROp2 (OAdd I32) (ROp2 (OMul I32) (RIn 0) (RConst (VZ 2%Z))) (RExpand [1; 3] (RReshape [1; 3] (RIn 1)))))
+  /\ opt_cten_is (sp_jax sx_tab sx_prog [sx_cx; sx_cy] 5) (mkC [2; 3] (map VZ [4; 15; -23; 0; 5; -1]%Z)) = true
+  /\ opt_cten_is (sp_onnx sx_tab sx_prog [sx_cx; sx_cy] 5) (mkC [2; 3] (map VZ [4; 15; -23; 0; 5; -1]%Z)) = true.
+Proof. vm_compute. repeat split. Qed.
